@@ -620,9 +620,13 @@ class Renderer:
                                ("actions", "action", "name"), ("checkpoints", "checkpoint", "alias"), ("groups", "group", "name")):
             ids = [e["id"] for e in s[coll]]
             nidx = [e[nk] for e in s[coll]]
+            own = numeric_names == "own"
             numeric = numeric_names and len(set(ids)) == len(ids) and len(set(nidx)) == len(nidx) and len(ids) >= 1
             for k, e in enumerate(s[coll]):
-                if numeric:
+                if numeric and own:
+                    # every entity is named like its OWN id: "kind:{7}" and "kind:7" denote the same entity
+                    nm = str(ids[k])
+                elif numeric:
                     # the alias of one entity is the decimal spelling of the id of the NEXT one (its own when alone):
                     # "kind:{7}" and "kind:7" then denote different entities
                     nm = str(ids[(k + 1) % len(ids)])
@@ -658,6 +662,10 @@ class Renderer:
         mode = force or self.spelling
         if mode == "mixed":
             mode = "alias" if self.rng.random() < 0.5 else "id"
+        elif mode == "entity":
+            # mixed, but decided per entity and independent of the order of rendering: an entity is always referred to
+            # in one spelling, half of the entities by alias
+            mode = "alias" if int(hashlib.sha1(("%s:%s" % (kind, i)).encode()).hexdigest(), 16) % 2 else "id"
         if mode == "alias" and (kind, i) in self.names:
             return "%s:{%s}" % (JSON_KIND[kind], self.names[(kind, i)])
         if mode == "alias":
